@@ -40,11 +40,13 @@ type history struct {
 	Ops      []hop
 	Fresh    []int // universe indices never used by Ops (for the probes)
 	Removed0 int   // a ref removed during the history (for the re-receive probe), -1 if none
+	PackOp   int   // the operation that receives the file's schema blob and so starts the pack, -1 if none
+	MaxChunk int   // size of the largest blob of the file
 }
 
 // genHistory generates the seeded history of a backend.
 func genHistory(rng *rand.Rand, def *backendDef, caps sto.Caps, hasPreload, canReopen bool, nops int) (*history, error) {
-	h := &history{Removed0: -1}
+	h := &history{Removed0: -1, PackOp: -1}
 	nUni := 66
 	if def.Long {
 		nUni = longReceives + 30
@@ -62,6 +64,9 @@ func genHistory(rng *rand.Rand, def *backendDef, caps sto.Caps, hasPreload, canR
 		for _, b := range fb {
 			filePart = append(filePart, len(h.Universe))
 			h.Universe = append(h.Universe, b)
+			if len(b.Data) > h.MaxChunk {
+				h.MaxChunk = len(b.Data)
+			}
 		}
 	}
 	// the last two small blobs are reserved for the probes
@@ -155,6 +160,7 @@ func genHistory(rng *rand.Rand, def *backendDef, caps sto.Caps, hasPreload, canR
 	}
 	// the file whose last blob triggers packing (blobpacked only)
 	for _, k := range filePart {
+		h.PackOp = len(h.Ops) // the last one (sto.FileBlobs puts the file's schema blob last)
 		receive(k)
 	}
 	// phase B: mandatory operations in seeded order, padded with random ones
